@@ -56,47 +56,121 @@ func appendLiteral(p *pathx.Path, i int) (base ssa.Value, elems []ssa.Value) {
 	return e.Args[0], elems
 }
 
-// pendingAckStores lists, in order, what a path does to Client.pendingAck:
-// "append:<firstbyte>" or "truncate".
+// ackByte is one byte of the packet composed in Client.pendingAck: a value
+// (part 0), or the high (1) / low (2) byte of a 16-bit value.
+type ackByte struct {
+	v    ssa.Value
+	part int
+}
+
+// pendingAckStores lists, in order, what a path does to Client.pendingAck.
+// kind is "append" (the buffer is non-empty afterwards, elems is its whole
+// content when that is known), "truncate" or "other".
 type ackStore struct {
 	idx   int
-	kind  string // "append", "truncate", "other"
-	first int64  // first byte of an appended literal, -1 unknown
-	elems []ssa.Value
+	kind  string
+	first int64 // first byte when constant, else -1
+	elems []ackByte
 }
 
 func pendingAckStores(p *pathx.Path) []ackStore {
 	var out []ackStore
+	var cur []ackByte
+	known := true
+	// content of a value that is (built from) the pending buffer
+	var content func(v ssa.Value, upto int, d int) ([]ackByte, bool)
+	content = func(v ssa.Value, upto int, d int) ([]ackByte, bool) {
+		if d > 6 {
+			return nil, false
+		}
+		switch x := v.(type) {
+		case *ssa.Slice:
+			if hi, ok := intConst(x.High); ok && hi == 0 && x.Low == nil {
+				return nil, true
+			}
+		case *ssa.UnOp:
+			if roleKey(x) == "Client.pendingAck" {
+				return append([]ackByte(nil), cur...), known
+			}
+		case *ssa.Call:
+			if dst, val, n, ok := appendUintN(x); ok && n == 2 {
+				base, okb := content(dst, upto, d+1)
+				if !okb {
+					return nil, false
+				}
+				return append(base, ackByte{val, 1}, ackByte{val, 2}), true
+			}
+			if b, ok := x.Call.Value.(*ssa.Builtin); ok && b.Name() == "append" && len(x.Call.Args) == 2 {
+				base, okb := content(x.Call.Args[0], upto, d+1)
+				if !okb {
+					return nil, false
+				}
+				for j := upto; j >= 0; j-- {
+					if p.Events[j].Kind == pathx.KCall && p.Events[j].Result == v {
+						_, el := appendLiteral(p, j)
+						if el == nil {
+							return nil, false
+						}
+						for _, e := range el {
+							base = append(base, ackByte{e, 0})
+						}
+						return base, true
+					}
+				}
+			}
+		}
+		return nil, false
+	}
 	for i := range p.Events {
 		e := &p.Events[i]
 		if e.Kind != pathx.KStore || pathx.RoleOfAddr(e.Addr).Key() != "Client.pendingAck" {
 			continue
 		}
 		st := ackStore{idx: i, kind: "other", first: -1}
-		switch v := e.Val.(type) {
-		case *ssa.Slice:
-			if hi, ok := intConst(v.High); ok && hi == 0 && v.Low == nil {
-				st.kind = "truncate"
-			}
-		case *ssa.Call:
-			// result of append
-			for j := i - 1; j >= 0; j-- {
-				if p.Events[j].Kind == pathx.KCall && p.Events[j].Result == v {
-					_, el := appendLiteral(p, j)
-					if len(el) > 0 {
-						st.kind = "append"
-						st.elems = el
-						if n, ok := intConst(el[0]); ok {
-							st.first = n
-						}
-					}
-					break
+		c, ok := content(e.Val, i, 0)
+		switch {
+		case ok && len(c) == 0:
+			st.kind = "truncate"
+			cur, known = nil, true
+		case ok:
+			st.kind = "append"
+			st.elems = c
+			if c[0].part == 0 {
+				if n, isK := intConst(c[0].v); isK {
+					st.first = n
 				}
 			}
+			cur, known = c, true
+		default:
+			// an append whose base or elements could not be followed: non-empty, content unknown
+			if call, isCall := e.Val.(*ssa.Call); isCall {
+				if _, _, _, au := appendUintN(call); au {
+					st.kind = "append"
+				}
+				if b, isB := call.Call.Value.(*ssa.Builtin); isB && b.Name() == "append" {
+					st.kind = "append"
+				}
+			}
+			cur, known = nil, false
 		}
 		out = append(out, st)
 	}
 	return out
+}
+
+// idBytes reports whether a and b are the high and low byte of one value
+// parsed from the packet, and returns that value.
+func idBytes(a, b ackByte) (ssa.Value, bool) {
+	if a.part == 1 && b.part == 2 && a.v == b.v {
+		return stripConv(a.v), true
+	}
+	if a.part == 0 && b.part == 0 {
+		hi, lo := strip(a.v), strip(b.v)
+		if sh, ok := hi.(*ssa.BinOp); ok && sh.Op == token.SHR && isK(sh.Y, 8) && strip(sh.X) == lo {
+			return lo, true
+		}
+	}
+	return nil, false
 }
 
 // qosOnPath tells which quality-of-service arm of onPUBLISH a path took:
@@ -242,20 +316,21 @@ func (c *Ctx) ord4() {
 					ackq.fail(p, last, "a QoS %d message is returned without the matching acknowledgement (first byte %#x) left in pendingAck", q, want)
 				default:
 					// identifier bytes derive from the Uint16 parsed in this call
-					hi, lo := strip(st.elems[2]), strip(st.elems[3])
-					sh, _ := hi.(*ssa.BinOp)
-					idOK := sh != nil && sh.Op == token.SHR && strip(sh.X) == lo
-					var src ssa.Value = lo
-					if cv, ok := lo.(*ssa.Convert); ok {
-						src = cv.X
-					}
+					src, idOK := idBytes(st.elems[2], st.elems[3])
 					fromParse := false
-					if call, ok := strip(src).(*ssa.Call); ok {
-						if f := call.Call.StaticCallee(); f != nil && f.Name() == "Uint16" {
-							fromParse = true
+					if idOK {
+						if cv, ok := src.(*ssa.Convert); ok {
+							src = cv.X
+						}
+						if call, ok := strip(src).(*ssa.Call); ok {
+							if f := call.Call.StaticCallee(); f != nil && f.Name() == "Uint16" {
+								fromParse = true
+							}
 						}
 					}
-					if n, ok := intConst(st.elems[1]); !ok || n != 2 {
+					if st.elems[1].part != 0 {
+						idOK = false
+					} else if n, ok := intConst(st.elems[1].v); !ok || n != 2 {
 						idOK = false
 					}
 					if idOK && fromParse {
